@@ -387,6 +387,8 @@ func runC15(r *run) {
 	}
 
 	c15EdgeRecords(r)
+	envProbe(r, false, "tz", "TZ=Asia/Kolkata")
+	envProbe(r, false, "tz", "TZ=Asia/Kathmandu")
 
 	// ---- the std log bridge
 	msgs := []string{"", "a", "a\n", "a\n\n", "two\n\n\n", "\n", "\n\n", "in\nner", "in\nner\n", " lead", "trail \n", "tab\tx",
